@@ -159,35 +159,36 @@ Theorem C03_turtle_cell_shape : forall g l, cell_ok g l = true ->
 Proof. exact cell_ok_shape. Qed.
 Print Assumptions C03_turtle_cell_shape.
 
-(* doList writes exactly the members of that collection, cell by cell, and stops.  FULL STATEMENT (does not hold for
-   the loop in the tree, "while l_:"): no hypothesis on rdf:nil.  With "rdf:nil has neither rdf:first nor rdf:rest": *)
-Theorem C03_turtle_doList_partial : forall g falsy cells l fuel, chain_to_nil g l cells ->
-  value g NIL REST = None -> value g NIL FIRST = None -> memN NIL falsy = false ->
-  (forall c, In c cells -> memN c falsy = false) -> (length cells < fuel)%nat ->
-  exists items, do_list g falsy fuel l = Some (combine cells items) /\ length items = length cells /\
+(* doList (the loop "while l_ != rdf:nil" of fix commit 0dee69e9) writes exactly the members of that collection, cell
+   by cell, and stops - FULL STATEMENT, no hypothesis on the graph. *)
+Theorem C03_turtle_doList : forall g cells l fuel, chain_to_nil g l cells -> (length cells <= fuel)%nat ->
+  exists items, do_list g fuel l = Some (combine cells items) /\ length items = length cells /\
     Forall2 (fun c i => value g c FIRST = Some i) cells items.
 Proof. exact do_list_ok. Qed.
-Print Assumptions C03_turtle_doList_partial.
+Print Assumptions C03_turtle_doList.
 
-(* F15r: a graph that isValidList accepts and on which doList never ends, whatever the fuel; the repaired loop
-   (while l_ != rdf:nil, notes/C03_repairs/08_F15r.diff) ends on it *)
-Theorem C03_turtle_doList_refuted :
-  is_valid_list w_f15r [] 20%N = Some true /\ (forall fuel, do_list w_f15r [] fuel 20%N = None) /\
-  tl_kf {| tg := w_f15r; tser := []; tfalsy := []; thead := 20%N |} = 1%N /\
-  exists r, do_list_fixed w_f15r 5 20%N = Some r.
+(* historical (finding F15r, before 0dee69e9): the loop "while l_:" walked past rdf:nil; a graph that isValidList accepts
+   and on which that loop never ends, whatever the fuel; the committed loop ends on it *)
+Theorem C03_turtle_doList_historical_refuted :
+  is_valid_list w_f15r [] 20%N = Some true /\ (forall fuel, do_list_old w_f15r [] fuel 20%N = None) /\
+  tl_kf_old {| tg := w_f15r; tser := []; tfalsy := []; thead := 20%N |} = 1%N /\
+  exists r, do_list w_f15r 5 20%N = Some r.
 Proof. exact f15r_refuted. Qed.
-Print Assumptions C03_turtle_doList_refuted.
+Print Assumptions C03_turtle_doList_historical_refuted.
 
-(* the repaired doList needs no hypothesis *)
-Theorem C03_turtle_doList_fixed : forall g cells l fuel, chain_to_nil g l cells -> (length cells <= fuel)%nat ->
-  exists items, do_list_fixed g fuel l = Some (combine cells items) /\ length items = length cells /\
+(* with the old loop the statement needed "rdf:nil has neither rdf:first nor rdf:rest" *)
+Theorem C03_turtle_doList_historical_partial : forall g falsy cells l fuel, chain_to_nil g l cells ->
+  value g NIL REST = None -> value g NIL FIRST = None -> memN NIL falsy = false ->
+  (forall c, In c cells -> memN c falsy = false) -> (length cells < fuel)%nat ->
+  exists items, do_list_old g falsy fuel l = Some (combine cells items) /\ length items = length cells /\
     Forall2 (fun c i => value g c FIRST = Some i) cells items.
-Proof. exact do_list_fixed_ok. Qed.
-Print Assumptions C03_turtle_doList_fixed.
+Proof. exact do_list_old_ok. Qed.
+Print Assumptions C03_turtle_doList_historical_partial.
 
-Theorem C03_tl_spec_model_partial : forall c, tl_wf c = true -> tl_kf c = 0%N -> tl_spec c (tl_model c) = true.
+(* both loops end on every graph: what the ttl_islist suite checks of the implementation holds of the model *)
+Theorem C03_tl_spec_model : forall c, tl_spec c (tl_model c) = true.
 Proof. exact tl_spec_model. Qed.
-Print Assumptions C03_tl_spec_model_partial.
+Print Assumptions C03_tl_spec_model.
 
 (* graph-level suite: no model; the checker only says "the round trip was fine" *)
 Theorem C03_rt_spec_model : forall c, rt_kf c = 0 -> rt_spec c (rt_model c) = true.
